@@ -34,6 +34,9 @@ var (
 	enumAliases []enumAlias
 )
 
+// enumOthers: values converted to text between taking a MarshalText result and looking at it
+var enumOthers []uint64
+
 func safeMarshal(t enumType, v uint64) (text B, isErr, pan bool) {
 	defer func() {
 		if r := recover(); r != nil {
@@ -41,6 +44,13 @@ func safeMarshal(t enumType, v uint64) (text B, isErr, pan bool) {
 		}
 	}()
 	b, err := t.Marshal(v)
+	// the text belongs to the caller: other values of the same type are converted before it is looked at
+	for _, o := range enumOthers {
+		if o != v {
+			t.Marshal(o) //nolint:errcheck
+			_ = t.String(o)
+		}
+	}
 	return B(append([]byte{}, b...)), err != nil, false
 }
 
@@ -116,6 +126,16 @@ func cmdEnums(o opts) {
 
 // enumRecord probes one enum type (its defined constants cs) and returns the ENUM record.
 func enumRecord(t enumType, cs []enumConst, r *rand.Rand, thorough bool) M {
+	enumOthers = enumOthers[:0]
+	var all uint64
+	for i, c := range cs {
+		all |= c.Value
+		if i < 3 {
+			enumOthers = append(enumOthers, c.Value)
+		}
+	}
+	enumOthers = append(enumOthers, all, 0, 1<<40+12345)
+	defer func() { enumOthers = nil }()
 	nUnions, nUnnamed := 50, 50
 	if thorough {
 		nUnions, nUnnamed = 400, 400
